@@ -10,8 +10,9 @@ import (
 
 // V1 drives the v1 library (package lib).
 type V1 struct {
-	T    *codec.Table
-	void jd1.JsonNode
+	T        *codec.Table
+	void     jd1.JsonNode
+	NegZeroB bool
 }
 
 func NewV1(t *codec.Table) *V1 {
@@ -31,6 +32,18 @@ func (v *V1) Inject(n codec.Node, yaml bool) (jd1.JsonNode, error) {
 		return jd1.ReadYamlString(txt)
 	}
 	return jd1.ReadJsonString(txt)
+}
+
+// MustInjectB is MustInject for the b side of a pair (see V2.NegZeroB).
+func (v *V1) MustInjectB(n codec.Node) jd1.JsonNode {
+	if !v.NegZeroB || n.IsVoid() {
+		return v.MustInject(n)
+	}
+	j, err := jd1.ReadJsonString(v.T.TextNZ(n))
+	if err != nil {
+		panic(fmt.Sprintf("codec: cannot inject %v: %v", v.T.TextNZ(n), err))
+	}
+	return j
 }
 
 func (v *V1) MustInject(n codec.Node) jd1.JsonNode {
